@@ -159,6 +159,15 @@ def run(ctx):
             n = rng.randint(1, N)
             mask = None if n == N else gen.rmask(rng, N, n)[0]
             do(ctx, 'rot_corr', [be, gen.rpauli(rng, n, herm=True, nonzero=True), mask, gen.rplist(rng, N, L)], nontrivial=('long', be, L))
+    # SPARSE generators on wide registers, unmasked, either sign
+    for N in gen.BIG:
+        for be in backends:
+            g = gen.rsparse(rng, N, rng.randint(1, 2))
+            sup = [q for q in range(N) if g[0][2 * q] or g[0][2 * q + 1]]
+            l = [gen.rsparse(rng, N, rng.randint(1, 3), herm=False, pool=sup + [0, N - 1]) for _ in range(4)] + gen.rplist(rng, N, 2)
+            do(ctx, 'rot_corr', [be, g, None, l], nontrivial=('sparse', be, N))
+            do(ctx, 'single', [be, g, None, l[0], 'pauli'], nontrivial=('sparse1', be, N))
+            do(ctx, 'map_corr', [be, g], nontrivial=('sparsem', be, N))
     # LARGE registers: byte, word and cache-line boundaries of every packed or vectorised representation (8, 9, 16, 17, 33, 64, 65 qubits); model correspondence only
     for N in gen.BIG:
         for be in backends:
